@@ -164,6 +164,13 @@ def mw_handle_target(target_text, target_format):
     return target
 
 
+def _read_stdin():
+    try:
+        return sys.stdin.read()
+    except UnicodeDecodeError as ude:
+        raise UsageError(f'could not read target data from stdin, got: {ude}')
+
+
 @face_middleware(provides=['spec', 'target'])
 def mw_get_target(next_, posargs_, target_file, target_format, spec_file, spec_format):
     spec_text, target_text = None, None
@@ -201,14 +208,14 @@ def mw_get_target(next_, posargs_, target_file, target_format, spec_file, spec_f
     if target_text and target_file:
         raise UsageError('expected target file or target argument, not both')
     elif target_text == '-' or target_file == '-':
-        target_text = sys.stdin.read()
+        target_text = _read_stdin()
     elif target_file:
         try:
             target_text = open(target_file).read()
         except (OSError, UnicodeDecodeError) as ose:
             raise UsageError(f'could not read target file {target_file!r}, got: {ose}')
     elif not target_text and not isatty(sys.stdin):
-        target_text = sys.stdin.read()
+        target_text = _read_stdin()
 
     target = mw_handle_target(target_text, target_format)
 
